@@ -58,7 +58,11 @@ def gen(tp, feat, tier='quick'):
         clocks.append({
             'tempo': tp.choice(TEMPOS),
             'beats': tp.choice([0, 0, 0, 4, 10.5]) if feat.get('init_beats')
-            else 0})
+            else 0,
+            # reference time of the clock's beats (logical seconds); None:
+            # the time of its creation
+            'seconds': tp.choice([None, None, None, 0, 0.25, T0])
+            if feat.get('init_beats') else None})
     names = ['sys'] + [f't{i}' for i in range(n_clocks)]
     if feat.get('app'):
         names.append('app')
@@ -396,8 +400,13 @@ class Interp:
             rout = me.robj.get(rid, rout)   # (an embedded routine is handed
             if rid == 0:                    # its embedder's inval)
                 for i, cd in enumerate(me.prog['clocks']):
-                    me.clocks[f't{i}'] = me.sclk.TempoClock(
-                        cd['tempo'], cd.get('beats') or None)
+                    if cd.get('seconds') is not None:
+                        me.clocks[f't{i}'] = me.sclk.TempoClock(
+                            cd['tempo'], cd.get('beats') or None,
+                            cd['seconds'])
+                    else:
+                        me.clocks[f't{i}'] = me.sclk.TempoClock(
+                            cd['tempo'], cd.get('beats') or None)
             for st in rdef['body']:
                 op = st[0]
                 if op == 'wait':
@@ -827,7 +836,8 @@ class Model:
         if rid == 0 and pc == 0:
             for i, cd in enumerate(self.prog['clocks']):
                 self.clocks[f't{i}'] = MClock(
-                    cd['tempo'], cd.get('beats') or 0.0, secs)
+                    cd['tempo'], cd.get('beats') or 0.0,
+                    secs if cd.get('seconds') is None else cd['seconds'])
         while True:
             if pc >= len(body):
                 self.events.append(('end', rid, secs))
